@@ -296,9 +296,9 @@ def ref_family_check(prop, tier, seed, plan_quick, plan_thorough, corr=None, des
     return v.finish()
 
 
-def corr_selector(hbin, wd, tier, seed):
+def corr_selector(hbin, wd, tier, seed, sizes=((16, 8), (32, 40))):
     """C02: the real engine on selector queries vs Select.v/Shard.v/Exec.v evaluated inside Coq."""
-    shards, per = (16, 8) if tier == "quick" else (32, 40)
+    shards, per = sizes[0] if tier == "quick" else sizes[1]
     files, total, nontriv = [], 0, 0
 
     def gen(i):
@@ -405,6 +405,28 @@ def _corr_multi(*corrs):
     return corr
 
 
+BIN_MODEL_TEXT = ("Bin.run_operator (hash join, per-step table, output labels, errors) on the operand streams of the engine's own "
+                  "operator trees vs the engine's result for `L op R` over selectors (primitive floats)")
+FUNC_MODEL_TEXT = ("Func.func_step / clamp_fn / scalar_binop_step / scalar_step on the operand stream of the engine's own operator tree "
+                   "vs the engine's result (primitive floats)")
+
+
+def corr_core(prop, parts):
+    """The models the property's theorems are stated over, compared with the code on every run of that property's
+    check too (reduced sizes; the full-size comparisons run under C02, C04, C05, C06)."""
+    cs = []
+    if "sel" in parts:
+        cs.append(lambda hbin, wd, tier, seed: corr_selector(hbin, wd, tier, seed, sizes=((8, 8), (16, 40))))
+    if "bin" in parts:
+        cs.append(_corr_generic("bincases", prop, BIN_MODEL_TEXT, 25, 250, shards_quick=4, shards_thorough=16))
+    if "func" in parts:
+        cs.append(_corr_generic("funccases", prop, FUNC_MODEL_TEXT, 25, 250, shards_quick=4, shards_thorough=16))
+    if "agg" in parts:
+        cs.append(_corr_generic("aggcases", prop, "Agg.group_labels / assign_groups / aggregate (count table) + Select.select_step vs the engine "
+                                "on count by/without (labels) (selector)", 10, 100, shards_quick=8, shards_thorough=16))
+    return _corr_multi(*cs)
+
+
 def check_C16(tier, seed, replay=None):
     corr = _corr_generic("hintcases", "C16", "Hints.eng_selects vs the selects recorded by the instrumented storage (no optimizers)", 150, 1500)
     return ref_family_check("C16", tier, seed, [("hints", "", 1500), ("hints", "range", 500), ("hints", "func", 500), ("hints", "pairs", 1200)],
@@ -427,24 +449,28 @@ def check_C10(tier, seed, replay=None):
 def check_C07(tier, seed, replay=None):
     return ref_family_check("C07", tier, seed,
                             [("instants", "nostartend", 1500), ("instants", "range", 400), ("instants", "epoch:nostartend", 300)],
-                            [("instants", "nostartend", 30000), ("instants", "range", 8000), ("instants", "agg", 8000), ("instants", "epoch:nostartend", 8000)])
+                            [("instants", "nostartend", 30000), ("instants", "range", 8000), ("instants", "agg", 8000), ("instants", "epoch:nostartend", 8000)],
+                            corr=corr_core("C07", ("sel", "bin")))
 
 
 def check_C11(tier, seed, replay=None):
     return ref_family_check("C11", tier, seed,
                             [("procs", "", 500), ("perm", "noties", 1500), ("procs", "selector", 300)],
-                            [("procs", "", 8000), ("perm", "noties", 30000), ("procs", "selector", 5000), ("procs", "agg", 4000)])
+                            [("procs", "", 8000), ("perm", "noties", 30000), ("procs", "selector", 5000), ("procs", "agg", 4000)],
+                            corr=corr_core("C11", ("sel", "bin")))
 
 
 def check_C19(tier, seed, replay=None):
     return ref_family_check("C19", tier, seed,
                             [("wf", "", 3000), ("wf", "bin", 1500), ("wf", "func", 1000), ("wf", "hist", 400)],
-                            [("wf", "", 60000), ("wf", "bin", 30000), ("wf", "func", 20000), ("wf", "deep", 20000), ("wf", "hist", 8000)])
+                            [("wf", "", 60000), ("wf", "bin", 30000), ("wf", "func", 20000), ("wf", "deep", 20000), ("wf", "hist", 8000)],
+                            corr=corr_core("C19", ("sel",)))
 
 
 def check_C01(tier, seed, replay=None):
     return ref_family_check("C01", tier, seed, [("", 5000), ("deep", 2000), ("noties", 1500), ("epoch:", 800)],
-                            [("", 100000), ("deep", 40000), ("noties", 30000), ("func", 20000), ("bin", 20000), ("agg", 20000), ("range", 20000), ("epoch:", 20000), ("epoch:deep", 10000)])
+                            [("", 100000), ("deep", 40000), ("noties", 30000), ("func", 20000), ("bin", 20000), ("agg", 20000), ("range", 20000), ("epoch:", 20000), ("epoch:deep", 10000)],
+                            corr=corr_core("C01", ("sel", "bin", "func", "agg")))
 
 
 def check_C04(tier, seed, replay=None):
@@ -476,7 +502,8 @@ def check_C06(tier, seed, replay=None):
 
 def check_C18(tier, seed, replay=None):
     return ref_family_check("C18", tier, seed, [("stream", "", 1500), ("stream", "func", 800), ("stream", "agg", 800), ("stream", "bin", 600)],
-                            [("stream", "", 30000), ("stream", "func", 15000), ("stream", "agg", 15000), ("stream", "bin", 15000), ("stream", "range", 8000)])
+                            [("stream", "", 30000), ("stream", "func", 15000), ("stream", "agg", 15000), ("stream", "bin", 15000), ("stream", "range", 8000)],
+                            corr=corr_core("C18", ("sel", "bin", "func")))
 
 
 def check_C13(tier, seed, replay=None):
